@@ -71,10 +71,19 @@ def grid(tier):
                             cases.append({"command": command, "state": state, "flags": flags, "archive": kind,
                                           "variant": variant, "extra": extra})
         for inp in COMPRESS_INPUTS:
-            for state in compress_states:
+            # compress onto an existing block device is one more "output already exists" cell
+            for state in compress_states + ["blockdev-large"]:
                 for flags in COMPRESS_FLAGS:
                     cases.append({"command": "compress", "state": state, "flags": flags, "archive": inp,
                                   "variant": variant, "extra": []})
+    if tier == "quick":
+        # the device-too-small refusal must compare with the SOURCE size: a compressible source whose
+        # archive is much smaller than the device, in the quick tier as well
+        for command in ("clone-local", "clone-http"):
+            for flags in CLONE_FLAGS:
+                for kind in ("valid", "right-verify-header"):
+                    cases.append({"command": command, "state": "blockdev-small", "flags": flags, "archive": kind,
+                                  "variant": "B", "extra": []})
     return cases
 
 
@@ -133,7 +142,8 @@ def state_content(state, source, seed, variant):
     if state == "blockdev-large":
         return rnd.randbytes((n + 511) // 512 * 512 + 4096)
     if state == "blockdev-small":
-        return rnd.randbytes(max(512, (n // 2) // 512 * 512))
+        # the largest device (multiple of 512) that is still smaller than the source
+        return rnd.randbytes(max(512, (n - 1) // 512 * 512))
     raise ValueError(state)
 
 
@@ -385,7 +395,8 @@ def run_case(env_, idx, case):
             good = False
             if after["exists"] and "_data" in after:
                 if case["command"] == "compress":
-                    good = after["_data"][:6] == MAGIC and len(after["_data"]) > 14 + 72 and after["kind"] == "file"
+                    good = after["_data"][:6] == MAGIC and len(after["_data"]) > 14 + 72 and \
+                        after["kind"] == ("file" if not is_dev else before["kind"])
                 elif is_dev:
                     good = after["_data"][:len(source)] == source and after["size"] == before["size"] and \
                         after["kind"] == before["kind"]
